@@ -770,8 +770,16 @@ fn run_history(env: &Env, h: &History, rng: &mut Rng, plan: SPlan) -> Outcome {
                 // (2) signable roots do not depend on how far beyond the beacon the node imported
                 let hi = dump.blocks.iter().map(|b| b.1).max().unwrap_or(0).min(*target);
                 let mut beacons: Vec<u64> = vec![];
-                for _ in 0..plan.beacons {
+                if plan.beacons > 0 {
+                    // any beacon; an aligned one (last block of a range: both builders); one above the last stored root
                     beacons.push(rng.range(0, hi));
+                    if hi >= 14 {
+                        beacons.push(rng.range(1, (hi + 1) / 15) * 15 - 1);
+                    }
+                    let last_end = dump.roots.iter().map(|r| r.1).max().unwrap_or(0);
+                    if last_end <= hi {
+                        beacons.push(rng.range(last_end, hi));
+                    }
                 }
                 for b in beacons {
                     out.s2_checks += 1;
@@ -1356,7 +1364,7 @@ fn main() {
                 }
             }
         }
-        let plan = SPlan { every: i % 10 == 0, beacons: if i % 3 == 0 { 2 } else { 0 } };
+        let plan = SPlan { every: i % 10 == 0, beacons: if i % 3 == 0 { 3 } else { 0 } };
         let o = run_history(&env, &h, &mut r, plan);
         for c in o.letters.chars() {
             *letters.entry(c).or_insert(0) += 1;
